@@ -337,6 +337,41 @@ def grid_agreement(S, rep):
                "weights buffer shape %s" % (kw.shape if kw is not None else None,), key="C06.d|%d|width" % dim, nontrivial=False)
 
 
+def weights_single_writer(S, rep):
+    """the weight buffer of a forcing object holds the kernel's weights whenever it is looked at: besides its allocation, the only
+    writer is the weight kernel (`interp_weights[...] = ...` inside the communicator); a forcing class that rescales the buffer in
+    place leaves weights that no longer sum to one / cell volume"""
+    import ast
+    import os
+    n = 0
+    for root, _, files in os.walk(os.path.join(S.repo, "sopht")):
+        for f in sorted(files):
+            if not f.endswith(".py"):
+                continue
+            path = os.path.join(root, f)
+            rel = os.path.relpath(path, S.repo)
+            tree = ast.parse(open(path).read())
+            for fn_ in [x for x in ast.walk(tree) if isinstance(x, ast.FunctionDef)]:
+                for st in ast.walk(fn_):
+                    tg = st.targets if isinstance(st, ast.Assign) else [st.target] if isinstance(st, ast.AugAssign) else []
+                    for t in tg:
+                        base = t
+                        while isinstance(base, ast.Subscript):
+                            base = base.value
+                        nm = base.attr if isinstance(base, ast.Attribute) else base.id if isinstance(base, ast.Name) else None
+                        if nm != "interp_weights":
+                            continue
+                        n += 1
+                        alloc = isinstance(st, ast.Assign) and isinstance(t, ast.Attribute) and fn_.name == "__init__"
+                        kernel = isinstance(st, ast.Assign) and isinstance(t, ast.Subscript) and isinstance(base, ast.Name) \
+                            and "interpolation_weights_kernel" in fn_.name
+                        rep.ob("C06.a", "%s:%s writes the weight buffer" % (rel.split("/")[-1], fn_.name), alloc or kernel,
+                               "line %d: %s" % (st.lineno, ast.unparse(st)[:100]) if not (alloc or kernel) else "allocation" if alloc else "the weight kernel",
+                               key="C06.a|weights-writer|%s|%s" % (rel, fn_.name), nontrivial=False)
+    if n < 6:
+        raise Unsupported("expected the weight kernels and the two allocations of interp_weights, found %d stores" % n)
+
+
 def simulator_coordinates(S, rep):
     """(d) the simulators' own cell-centre coordinate field is x_c = dx/2 + i dx along the array axis of coordinate c (x on the
     last axis), with the one spacing dx = x_range / n_x the communicator is given: only then does Peskin interpolation of that
@@ -377,6 +412,7 @@ def run(S, tier, rep):
             kernel_identities(S, rep, dim, kind)
     grid_agreement(S, rep)
     simulator_coordinates(S, rep)
+    weights_single_writer(S, rep)
     rep.require_min("C06.d", 16)
     rep.require_min("C06.a", 8)
     rep.require_min("C06.b", 25)
